@@ -154,8 +154,14 @@ CHECKS["C17"] = dict(
          "(in-bounds writes, any content); at most one call per fence; a returned node carries new_memory on every byte, fences "
          "fence_memory, nothing outside the raw block is written; a released node carries freed_memory on every byte and nothing else "
          "changes. Tied by an exhaustive sweep on heap/malloc/new/virtual (every fence offset x byte values x node sizes) compared with the "
-         "model's handler-call list and an independent expectation, and by pattern oracles on pools/collections/stacks.",
-    note="partial: pool/stack fill patterns are oracles on the real code (sampled histories), not theorems; fence sizes 0 (rwdi), 8 (dbg) "
+         "model's handler-call list and an independent expectation. Stack family (Model/StackFill, Props/C17Stack): the writes of memory_stack "
+         "allocate / try_allocate / unwind and of iteration_allocator allocate / try_allocate / next_iteration are model functions next to the "
+         "state functions; theorems: a successful allocation writes exactly one footprint [fence|padding|new memory|fence] from the old top (or the "
+         "start of the block it grew into) to the new top, a failed request writes nothing, unwind writes freed_memory from the marker's top "
+         "upwards only, so no byte of an allocation that stays live is touched; without debug fill nothing is written. Tied by comparing, after "
+         "every such operation of every stack / iteration history, the bytes the real code left in the footprint (run-length form) with the "
+         "model's fills, plus a model-independent oracle of the same shape. Pools/collections: pattern oracles.",
+    note="partial: pool/collection fill patterns are oracles on the real code (sampled histories), not theorems; fence sizes 0 (rwdi), 8 (dbg) "
          "and 16 (fence16) are run; low-level fences are max_alignment/page-size whenever the option is non-zero.",
     technique="Lean 4 proof (byte-level model, induction over the scan) + exhaustive fence sweep correspondence")
 CHECKS["C20"] = dict(
